@@ -201,26 +201,36 @@ class ApiSession:
         elif kind == "subunit":
             import ynca.connection as YC
             from .realobj import subunit_class
+            from ynca.function import Cmd
             conn = YC.YncaConnection("virtual://port")
             conn.connect(None, 0)
-            cls = subunit_class(spec["class"])
-            obj = cls(conn)
-            obj.register_update_callback(lambda fn, v: api.emit("upd_cb", fn=fn, val=show(v)))
-            ev = api.emit("api_call", op="sub_initialize", cls=spec["class"])
-            exc = None
-            try:
-                obj.initialize()
-            except sched.Hang:
-                raise
-            except BaseException as e:  # noqa: BLE001
-                exc = e
-            from ynca.function import Cmd
-            attrs = {n: show(h.value) for n, h in obj.function_handlers.items() if Cmd.GET in h.function.cmd and h.value is not None}
-            api.emit("api_ret", call=ev["seq"], op="sub_initialize", exc=type(exc).__name__ if exc else None, msg=str(exc)[:200] if exc else None, attrs=attrs)
+            inits = spec.get("inits") or [{"class": spec["class"]}]
+            objs = []
+            for k, it in enumerate(inits):
+                if it.get("same_as") is not None:
+                    objs.append(objs[it["same_as"]])        # initialise an object a second time
+                    continue
+                o = subunit_class(it["class"])(conn)
+                o.register_update_callback(lambda fn, v, _k=k: api.emit("upd_cb", fn=fn, val=show(v), obj=_k))
+                objs.append(o)
+            if spec.get("pre_delay"):
+                api.sleep(spec["pre_delay"])
+            for k, (it, obj) in enumerate(zip(inits, objs)):
+                ev = api.emit("api_call", op="sub_initialize", cls=it["class"], idx=k)
+                exc = None
+                try:
+                    obj.initialize()
+                except sched.Hang:
+                    raise
+                except BaseException as e:  # noqa: BLE001
+                    exc = e
+                attrs = {n: show(h.value) for n, h in obj.function_handlers.items() if Cmd.GET in h.function.cmd and h.value is not None}
+                api.emit("api_ret", call=ev["seq"], op="sub_initialize", idx=k, exc=type(exc).__name__ if exc else None, msg=str(exc)[:200] if exc else None, attrs=attrs)
+                if it.get("gap"):
+                    api.sleep(it["gap"])
             api.sleep(spec.get("settle", 1.0))
-            attrs = {n: show(h.value) for n, h in obj.function_handlers.items() if Cmd.GET in h.function.cmd and h.value is not None}
-            api.emit("api_state", attrs=attrs)
-            obj.close()
+            for obj in objs:
+                obj.close()
             conn.close()
             api.sleep(5)
         return "done"
